@@ -249,12 +249,12 @@ theorem timeKnots_incX (ro : Bool) (rows : List TRow) : IncX (timeKnots ro rows)
     simp only at hb
     split at hb
     · simp at hb
-    · simp only [Option.mem_def, Option.some.injEq] at hb; rw [← hb]
+    · simp only [Option.some.injEq] at hb; rw [← hb]
   have h2 : b'.1 = a' := by
     simp only at hb'
     split at hb'
     · simp at hb'
-    · simp only [Option.mem_def, Option.some.injEq] at hb'; rw [← hb']
+    · simp only [Option.some.injEq] at hb'; rw [← hb']
   rw [h1, h2]; exact haa'
 
 end C18P
